@@ -335,11 +335,13 @@ Proof.
   destruct (lookup_local w1 r l) as [o|] eqn:El.
   - (* a tracked object *)
     destruct (lookup_local_some _ _ _ _ I1 El) as (Eo & Hl & Hr).
-    assert (RANK : forall c, In c (rev (map fst (o_children o))) -> (ht r c < n)%nat /\ (ht r c <= ht r l - 1)%nat).
+    assert (RANK0 : forall c, In c (rev (map fst (o_children o))) -> (ht r c < ht r l)%nat).
     { intros c Ic. apply in_rev in Ic. apply in_map_iff in Ic. destruct Ic as ([c' cf] & Hc' & Ic). cbn in Hc'; subst c'.
       destruct (tC1 _ _ _ T1 _ _ _ _ Eo Ic) as (co & rs0 & A1 & A2 & A3 & A4 & _).
       apply bk_odet in A4. destruct A4 as [_ [A4 A4']]. unfold epar, no_ovr in A4. inversion A4 as [A4p].
-      pose proof (R1 _ _ A1 ltac:(rewrite A4p; exact A4')) as Rc. rewrite A3, Hr, A2, A4p, Hl in Rc. lia. }
+      pose proof (R1 _ _ A1 ltac:(rewrite A4p; exact A4')) as Rc. rewrite A3, Hr, A2, A4p, Hl in Rc. exact Rc. }
+    assert (RANK : forall c, In c (rev (map fst (o_children o))) -> (ht r c < n)%nat /\ (ht r c <= ht r l - 1)%nat).
+    { intros c Ic. specialize (RANK0 c Ic). lia. }
     destruct (kill_children_ok _ r n ht (ht r l - 1)%nat HKI HKS HKR IHn _ w1 D I1 T1 R1 Hrs1 RANK) as (w2 & E0 & G2).
     rewrite E0. cbn [bind].
     destruct (kill_children_KI _ _ HKI HKS _ _ _ D I1 T1 E0) as (T2 & I2 & S2 & _).
@@ -348,7 +350,7 @@ Proof.
       destruct (G2 _ _ Eo Eo') as [_ Hb]. rewrite Hl in Hb.
       destruct (o_children o) as [|[c cf] tl] eqn:Ech.
       - simpl in E0. inversion E0; subst w2. congruence.
-      - destruct (RANK c) as [_ Hc]; [apply in_rev; rewrite rev_involutive; left; reflexivity|]. lia. }
+      - assert (Hc : (ht r c < ht r l)%nat) by (apply RANK0; apply in_rev; rewrite rev_involutive; left; reflexivity). lia. }
     destruct Eo' as (o' & Eo').
     destruct S2 as [S21 S22]. destruct (S21 _ _ Eo') as (o0 & Eo0 & P0 & _). rewrite Eo in Eo0. inversion Eo0; subst o0.
     assert (Hr' : o_region o' = r) by (unfold pcore in P0; congruence).
@@ -438,4 +440,404 @@ Proof.
       pose proof (R _ _ Eco ltac:(rewrite Hp; exact Hl0)) as Rc. rewrite Hrc, Hlc, Hp in Rc. lia. }
     destruct (kill_children_ok _ r n ht (ht r l) HKI HKS HKR IHn _ w3 _ I3 T3 R3 Hrs3 RANK) as (w' & E' & G').
     exists w'. split; [exact E'|]. exact G'.
+Qed.
+
+Lemma step_kill_ok : forall w r l, Idx w -> Tree w -> acyclic w -> get_rs w r <> None -> step w (EKill r l) <> None.
+Proof.
+  intros w r l I T (ht & R) Hrs. cbn [step]. destruct (get_rs w r) eqn:E; [|congruence].
+  pose proof (crank_Rk _ _ R) as R'.
+  assert (T0 : TreeG w (odet no_ovr []) None) by (eapply TreeG_ext; [|exact T]; intros g; reflexivity).
+  destruct (kill_ok (crank ht w) (kill_fuel w) r w l [] I T0 R') as (w' & E' & _).
+  - congruence.
+  - unfold kill_fuel. pose proof (crank_le ht w r l). lia.
+  - rewrite E'. discriminate.
+Qed.
+
+(* ---------- track_object of a detached, un-indexed object ---------- *)
+Lemma track_object_ok : forall w r x o rs, Base w -> TreeG w (oset no_ovr x None) None ->
+  get_obj w x = Some o -> o_region o = r -> get_rs w r = Some rs -> aget (o_lid o) (r_local rs) = None ->
+  o_parent o <> o_lid o ->
+  track_object w r x <> None.
+Proof.
+  intros w r x o rs Bw T Eo Hr Ers Hfree Hself. unfold track_object. rewrite Eo, Ers. cbn [bind].
+  set (l := o_lid o) in *. set (m := sdel l (r_missing rs)) in *.
+  set (w1 := set_rs w r (with_missing (with_local rs (aset l x (r_local rs))) m)) in *.
+  pose proof (Base_index _ _ _ _ _ m Bw Eo Hr Ers) as B1. fold l in B1. fold w1 in B1.
+  pose proof (TreeG_index _ _ _ _ _ _ m Bw T Eo Hr Ers Hfree) as T1. fold l in T1. fold w1 in T1.
+  specialize (T1 ltac:(unfold oset; rewrite N.eqb_refl; reflexivity)).
+  set (rs1 := with_missing (with_local rs (aset l x (r_local rs))) m) in *.
+  assert (Ers1 : get_rs w1 r = Some rs1) by (unfold w1; rewrite get_rs_set_rs, N.eqb_refl; reflexivity).
+  assert (Eo1 : get_obj w1 x = Some o) by exact Eo.
+  assert (Eidx1 : aget (o_lid o) (r_local rs1) = Some x).
+  { unfold rs1. cbn [r_local with_local with_missing]. rewrite aget_aset. fold l. rewrite N.eqb_refl. reflexivity. }
+  assert (HOx : oset no_ovr x None x = Some None) by (unfold oset; rewrite N.eqb_refl; reflexivity).
+  destruct (parent_object w1 r x false) as [w2|] eqn:E; cbn [bind].
+  2:{ exfalso. eapply (parent_object_ok w1 _ _ r x false o rs1); eauto. }
+  destruct B1 as [K1 W21].
+  assert (T2 : TreeG w2 (oset (oset no_ovr x None) x (Some (o_parent o))) (Some (r, l))).
+  { eapply (TreeG_parent w1 _ _ r x false o rs1 w2); [split; assumption|exact T1|exact Eo1|exact Hr|exact Ers1|exact Eidx1|exact HOx| |exact E].
+    intros _ Hk. inversion Hk. congruence. }
+  destruct (parent_pres _ _ _ _ _ _ _ K1 Eo1 Ers1 E) as [PO PR].
+  pose proof (frame_parent_object _ _ _ _ _ K1 E) as F2.
+  assert (B2 : Base w2) by (eapply frame_Base; [exact F2|split; assumption]).
+  destruct (frame_obj_rev _ _ _ _ F2 Eo1) as (o2 & Eo2 & _).
+  destruct (PO _ _ Eo2) as (o1' & Eo1' & L1 & L2 & L3 & L4 & L5). rewrite Eo1 in Eo1'. inversion Eo1'; subst o1'.
+  assert (Hch0 : o_children o = []).
+  { destruct (o_children o) as [|[c cf] t] eqn:Ech; [reflexivity|]. exfalso.
+    assert (Ic : In (c, cf) (o_children o)) by (rewrite Ech; left; reflexivity).
+    destruct (tC1 _ _ _ T _ _ _ _ Eo Ic) as (co & rs0 & _ & _ & _ & _ & A5 & _ & A7).
+    rewrite Hr, Ers in A5. inversion A5; subst rs0. fold l in A7. congruence. }
+  assert (Hch : o_children o2 = []).
+  { rewrite L5; [exact Hch0|].
+    intro Hp. unfold rs1 in Hp. cbn [r_local with_local with_missing] in Hp. rewrite aget_aset in Hp.
+    destruct (o_parent o =? l) eqn:Q; [apply N.eqb_eq in Q; contradiction|].
+    destruct (proj2 Bw _ _ _ _ Ers Hp) as (a & Ea & Hla & _). rewrite Eo in Ea. inversion Ea; subst a. fold l in Hla. congruence. }
+  assert (T2' : TreeG w2 no_ovr (Some (r, l))).
+  { eapply TreeG_bk_equiv; [|exact T2]. intros g a Eg p. destruct B2 as [K2 _]. pose proof (K2 _ _ Eg) as Kg.
+    destruct (N.eq_dec g x) as [->|Hne].
+    - rewrite bk_oset_some by exact Kg. rewrite Eo2 in Eg. inversion Eg; subst a.
+      unfold bk, epar, no_ovr. rewrite L4. split; intros [X Y]; split; congruence.
+    - rewrite bk_oset_other by (rewrite Kg; exact Hne). rewrite bk_oset_other by (rewrite Kg; exact Hne). reflexivity. }
+  destruct (frame_rs_rev _ _ _ _ F2 Ers1) as (rs2 & E0 & C2). rewrite E0. cbn [bind].
+  destruct (PR _ _ E0) as (rs1' & Ers1' & Lrs2). rewrite Ers1 in Ers1'. inversion Ers1'; subst rs1'.
+  destruct (collect_orphans rs2 l) as [orph rs3] eqn:Ec.
+  assert (Elx2 : aget l (r_local rs2) = Some x) by (rewrite Lrs2; exact Eidx1).
+  pose proof (TreeG_collect _ _ _ _ _ _ _ _ _ B2 T2' E0 Elx2 Eo2 Hch Ec) as T3.
+  destruct (collect_spec _ _ _ _ Ec) as (CL & CO & CLs).
+  assert (B3 : Base (set_rs w2 r rs3)).
+  { eapply frame_Base; [|exact B2]. eapply frame_set_rs; [exact E0|]. unfold ridx.
+    change rs3 with (snd (orph, rs3)). rewrite <- Ec. apply ridx_collect. }
+  assert (Ers3 : get_rs (set_rs w2 r rs3) r = Some rs3) by (rewrite get_rs_set_rs, N.eqb_refl; reflexivity).
+  rewrite <- (fulls_local rs2 rs3 orph CL) in T3.
+  assert (ND : NoDup orph).
+  { subst orph. destruct (aget l (r_orphans rs2)) eqn:El; [|constructor]. eapply (tO3 _ _ _ T2'); eauto. }
+  apply (adopt_ok orph _ no_ovr r rs3 B3 T3 Ers3 ND ltac:(intros; reflexivity)).
+  intros c Ic. subst orph. destruct (aget l (r_orphans rs2)) as [ls|] eqn:El; [|destruct Ic].
+  destruct (tO1 _ _ _ T2' _ _ _ _ _ E0 El Ic) as (_ & _ & cf & co & A3 & _). rewrite CL. congruence.
+Qed.
+
+(* ---------- handle_object_reparented ---------- *)
+Lemma reparent_ok : forall w r f q o rs, Base w -> TreeG w (oset no_ovr f (Some q)) None ->
+  get_obj w f = Some o -> o_region o = r -> get_rs w r = Some rs -> aget (o_lid o) (r_local rs) = Some f ->
+  handle_object_reparented w r f q <> None.
+Proof.
+  intros w r f q o rs Bw T Eo Hr Ers Eidx. pose proof Bw as [Kw W2]. pose proof (Kw _ _ Eo) as Kf.
+  unfold handle_object_reparented.
+  destruct (unparent_object w r f q) as [w1|] eqn:E; cbn [bind].
+  2:{ exfalso. eapply unparent_object_ok; eauto. }
+  assert (T1 : TreeG w1 (oset (oset no_ovr f (Some q)) f None) None).
+  { eapply (TreeG_unparent w _ None r f q o rs w1); eauto. unfold epar, oset. rewrite Kf, N.eqb_refl. reflexivity. }
+  destruct (unparent_pres _ _ _ _ _ _ _ Kw Eo Ers E) as (PF & PB & RF & RB).
+  pose proof (frame_unparent_object _ _ _ _ _ Kw E) as F1.
+  assert (B1 : Base w1) by (eapply frame_Base; eauto).
+  destruct (PB _ _ Eo) as (o1 & E0 & L1 & L2 & L3 & L4 & _). rewrite E0. cbn [bind].
+  destruct (RB _ _ Ers) as (rs1 & Ers1 & Lrs1).
+  eapply (parent_object_ok w1 _ None r f _ o1 rs1); [exact B1|exact T1|exact E0|congruence|exact Ers1| |].
+  - rewrite Lrs1, L1. exact Eidx.
+  - unfold oset. rewrite N.eqb_refl. reflexivity.
+Qed.
+
+(* ---------- _track_new_object ---------- *)
+Lemma track_new_ok : forall w r o, Idx w -> Tree w -> get_obj w (o_full o) = None -> o_region o = r ->
+  o_children o = [] -> region_state w r <> None -> lid_unique w r (o_lid o) (o_full o) -> o_parent o <> o_lid o ->
+  track_new w r o <> None.
+Proof.
+  intros w r o I T Hn Hr Hc Hrs Hu Hself. pose proof I as (K & A & B). unfold track_new.
+  destruct (region_state w r) as [rs|] eqn:Ers; [|congruence]. apply region_state_some in Ers. destruct Ers as [Ers Ht].
+  assert (Hfree : aget (o_lid o) (r_local rs) = None).
+  { destruct (aget (o_lid o) (r_local rs)) as [g|] eqn:Eg; [|reflexivity].
+    pose proof (Hu _ _ Ers Eg) as ->. destruct (A _ _ _ _ Ers Eg) as (og & Eog & _). congruence. }
+  assert (Eo : get_obj (set_obj w o) (o_full o) = Some o) by (rewrite get_obj_set_obj, N.eqb_refl; reflexivity).
+  assert (T0 : TreeG (set_obj w o) (oset no_ovr (o_full o) None) None).
+  { apply TreeG_new_obj; [apply Idx_Base; exact I|exact T|exact Hn|exact Hc]. }
+  assert (B0 : Base (set_obj w o)) by (eapply IdxX_Base; apply IdxX_new; eauto).
+  destruct (track_object (set_obj w o) r (o_full o)) as [w1|] eqn:E; cbn [bind].
+  2:{ exfalso. eapply (track_object_ok (set_obj w o) r (o_full o) o rs); eauto. }
+  assert (Hfree' : exists rs, get_rs (set_obj w o) r = Some rs /\ r_tracked rs = true /\ aget (o_lid o) (r_local rs) = None).
+  { exists rs. rewrite get_rs_set_obj. auto. }
+  destruct (track_Idx _ _ _ _ _ (IdxX_new _ o I Hn) Eo Hr Hfree' E) as [I1 FO].
+  pose proof (FO (o_full o)) as C. rewrite Eo in C. destruct (get_obj w1 (o_full o)) as [o1|]; cbn in C; [|discriminate].
+  cbn [bind]. destruct (region_state w1 (o_region o1)); discriminate.
+Qed.
+
+(* ---------- _update_existing_object ---------- *)
+Lemma hooks_ok : forall w3 f kind (b : bool) o3, get_obj w3 f = Some o3 ->
+  (if b then
+     o3 <- get_obj w3 f ;;
+     match region_state w3 (o_region o3) with
+     | Some _ => Some (resolve_futures w3 (o_region o3) (o_lid o3) kind f)
+     | None => Some w3
+     end
+   else Some w3) <> None.
+Proof.
+  intros w3 f kind b o3 E. destruct b; [|discriminate]. rewrite E. cbn [bind].
+  destruct (region_state w3 (o_region o3)); discriminate.
+Qed.
+
+Lemma second_block_ok : forall w1 f o1 o2 nr (b : bool), Idx w1 -> Tree w1 -> get_obj w1 f = Some o1 ->
+  o_lid o2 = o_lid o1 -> o_full o2 = o_full o1 -> o_region o2 = o_region o1 -> o_children o2 = o_children o1 ->
+  o_region o1 = nr ->
+  (if b then handle_object_reparented (set_obj w1 o2) nr f (o_parent o1) else Some (set_obj w1 o2)) <> None.
+Proof.
+  intros w1 f o1 o2 nr b I T Eo H1 H2 H3 H4 Hr. pose proof I as (K & A & B). pose proof (K _ _ Eo) as Kf.
+  destruct b; [|discriminate].
+  destruct (B _ _ Eo) as (rs & Ers & _ & Elx). rewrite Hr in Ers.
+  assert (T2 : TreeG (set_obj w1 o2) (oset no_ovr f (Some (o_parent o1))) None).
+  { eapply TreeG_set_fields; eauto. apply Idx_Base. exact I. }
+  assert (B2 : Base (set_obj w1 o2)).
+  { eapply frame_Base; [|apply Idx_Base; exact I]. eapply (frame_set_obj w1 f o1); [exact Eo| |exact Kf]. unfold core. congruence. }
+  eapply (reparent_ok (set_obj w1 o2) nr f (o_parent o1) o2 rs); eauto.
+  + rewrite get_obj_set_obj, H2, Kf, N.eqb_refl. reflexivity.
+  + congruence.
+  + rewrite H1. exact Elx.
+Qed.
+
+Lemma update_existing_ok : forall w f p k o, Idx w -> Tree w -> get_obj w f = Some o ->
+  region_state w (dflt (p_region p) (o_region o)) <> None ->
+  lid_unique w (dflt (p_region p) (o_region o)) (dflt (p_lid p) (o_lid o)) f ->
+  (o_region o <> dflt (p_region p) (o_region o) -> dflt (p_parent p) (o_parent o) <> dflt (p_lid p) (o_lid o)) ->
+  (o_region o = dflt (p_region p) (o_region o) -> o_lid o <> dflt (p_lid p) (o_lid o) -> o_parent o <> dflt (p_lid p) (o_lid o)) ->
+  update_existing w f p k <> None.
+Proof.
+  intros w f p k o I T Eo Hnew Huniq Hself1 Hself2. pose proof I as (K & A & B). unfold update_existing.
+  rewrite Eo. cbn [bind].
+  pose proof (K _ _ Eo) as Kf.
+  destruct (B _ _ Eo) as (rso & Erso & Htso & Elo).
+  assert (Eold : region_state w (o_region o) = Some rso).
+  { unfold region_state. rewrite Erso, Htso. reflexivity. }
+  rewrite Eold.
+  set (nr := dflt (p_region p) (o_region o)) in *. set (nl := dflt (p_lid p) (o_lid o)) in *.
+  set (np := dflt (p_parent p) (o_parent o)) in *.
+  destruct (region_state w nr) as [rsn|] eqn:Enew; [|congruence]. clear Hnew.
+  apply region_state_some in Enew. destruct Enew as [Ersn Htn].
+  destruct (o_region o =? nr) eqn:Qr; cbn [negb andb is_some].
+  - (* same region *)
+    apply N.eqb_eq in Qr.
+    assert (Qr2 : (nr =? o_region o) = true) by (apply N.eqb_eq; congruence).
+    destruct (o_lid o =? nl) eqn:Ql; cbn [negb andb is_some].
+    + (* same lid *)
+      apply N.eqb_eq in Ql. cbn [bind]. rewrite Eo. cbn [bind].
+      destruct (update_properties o p) as [o2 ch1] eqn:Eu.
+      pose proof (update_properties_tcore _ _ _ _ Eu) as C. apply tcore_inj' in C. cbn in C. destruct C as (U1 & U2 & U3 & U4 & U5).
+      rewrite Qr2. cbn [negb andb].
+      match goal with |- bind ?x _ <> None => destruct x as [w3|] eqn:E end; cbn [bind].
+      2:{ exfalso. revert E. eapply (second_block_ok w f o o2 nr _ I T Eo); [| | |exact U5|exact Qr].
+          - transitivity nl; [exact U1|symmetry; exact Ql].
+          - exact U2.
+          - transitivity nr; [exact U3|symmetry; exact Qr]. }
+      assert (F2 : frame w (set_obj w o2)).
+      { eapply (frame_set_obj w f o); [exact Eo| |exact Kf]. unfold core. fold nl in U1. fold nr in U3. congruence. }
+      assert (K2 : keys_ok (set_obj w o2)) by (eapply frame_keys; eauto).
+      pose proof (second_same_frame _ _ _ _ _ _ K2 E) as F3.
+      assert (Eo2 : get_obj (set_obj w o2) f = Some o2) by (rewrite get_obj_set_obj, U2, Kf, N.eqb_refl; reflexivity).
+      destruct (frame_obj_rev _ _ _ _ F3 Eo2) as (o3 & Eo3 & _).
+      eapply hooks_ok; eauto.
+    + (* local id changes inside the region *)
+      apply N.eqb_neq in Ql.
+      destruct (untrack_object w (o_region o) f) as [w1|] eqn:E; cbn [bind].
+      2:{ exfalso. eapply (untrack_object_ok w no_ovr (o_region o) f o); eauto. }
+      destruct (untrack_IdxX _ _ _ _ _ I Eo eq_refl E) as (IX1 & (o1 & E0 & C1) & FO1 & FR1).
+      rewrite E0. cbn [bind].
+      pose proof (core_inj _ _ C1) as (C1l & C1f & C1r).
+      destruct (untrack_object_TreeG _ _ _ _ _ I T Eo eq_refl E) as (TG1 & o1' & Eo1' & P1 & Hch1).
+      rewrite E0 in Eo1'. inversion Eo1'; subst o1'; clear Eo1'.
+      assert (P1p : o_parent o1 = o_parent o) by (unfold pcore in P1; congruence).
+      assert (UNI : forall r rs c, get_rs w1 r = Some rs -> aget c (r_local rs) <> Some f).
+      { intros r rs c E1' E2'. destruct IX1 as (_ & AX & _). destruct (AX _ _ _ _ E1' E2') as [Hne _]. congruence. }
+      assert (TG1' : TreeG (set_obj w1 (with_lid o1 nl)) (oset no_ovr f None) None).
+      { eapply TreeG_set_detached; [eapply IdxX_Base; exact IX1|exact TG1| |exact UNI|eauto| |exact Hch1].
+        - unfold oset. rewrite N.eqb_refl. reflexivity.
+        - cbn. congruence. }
+      assert (IX1' : IdxX (set_obj w1 (with_lid o1 nl)) f).
+      { apply IdxX_set_obj; [exact IX1|]. cbn. congruence. }
+      assert (Eo1n : get_obj (set_obj w1 (with_lid o1 nl)) f = Some (with_lid o1 nl)).
+      { rewrite get_obj_set_obj. cbn. rewrite C1f, Kf, N.eqb_refl. reflexivity. }
+      assert (Hfree : exists rs, get_rs (set_obj w1 (with_lid o1 nl)) (o_region o) = Some rs /\ r_tracked rs = true /\
+                                 aget (o_lid (with_lid o1 nl)) (r_local rs) = None).
+      { rewrite get_rs_set_obj. specialize (FR1 (o_region o)). rewrite Erso in FR1. cbn in FR1.
+        destruct (get_rs w1 (o_region o)) as [rs1|]; cbn in FR1; [|discriminate].
+        unfold ridx, ridx_del in FR1. rewrite N.eqb_refl in FR1. inversion FR1 as [[Ft Fl]].
+        exists rs1. split; [reflexivity|]. split; [congruence|]. cbn. rewrite Fl, aget_adel.
+        destruct (nl =? o_lid o) eqn:Q; [reflexivity|].
+        destruct (aget nl (r_local rso)) as [g|] eqn:Eg; [|reflexivity].
+        rewrite <- Qr in Huniq. pose proof (Huniq _ _ Erso Eg) as ->.
+        destruct (A _ _ _ _ Erso Eg) as (og & Eog & Hl & _). rewrite Eo in Eog. inversion Eog; subst og.
+        rewrite Hl, N.eqb_refl in Q. discriminate. }
+      pose proof Hfree as (rsf & Ersf & _ & Hfr).
+      destruct (track_object (set_obj w1 (with_lid o1 nl)) (o_region o) f) as [w2|] eqn:E1; cbn [bind].
+      2:{ exfalso. revert E1. eapply (track_object_ok _ (o_region o) f (with_lid o1 nl) rsf); [eapply IdxX_Base; exact IX1'|exact TG1'|exact Eo1n| |exact Ersf|exact Hfr|].
+          - cbn. exact C1r.
+          - cbn. rewrite P1p. apply Hself2; [exact Qr|exact Ql]. }
+      destruct (track_Idx _ _ _ _ _ IX1' Eo1n (eq_trans C1r eq_refl) Hfree E1) as [I2 FO2].
+      assert (T2 : Tree w2).
+      { eapply (track_object_Tree _ (o_region o) f (with_lid o1 nl) rsf w2); [eapply IdxX_Base; exact IX1'|exact TG1'|exact Eo1n| |exact Ersf|exact Hfr| |exact E1].
+        - cbn. exact C1r.
+        - cbn. rewrite P1p. apply Hself2; [exact Qr|exact Ql]. }
+      pose proof IX1' as (K1' & _).
+      pose proof (track_object_pcore _ _ _ _ K1' E1 f) as PC. rewrite Eo1n in PC.
+      destruct (get_obj w2 f) as [o1b|] eqn:E2; cbn in PC; [|discriminate]. cbn [bind]. inversion PC as [[Cbl Cbf Cbr Cbp]].
+      destruct (update_properties o1b p) as [o2 ch1] eqn:Eu.
+      pose proof (update_properties_tcore _ _ _ _ Eu) as C. apply tcore_inj' in C. cbn in C. destruct C as (U1 & U2 & U3 & U4 & U5).
+      rewrite Qr2. cbn [negb andb].
+      assert (Dl : dflt (p_lid p) nl = nl) by (unfold nl; destruct (p_lid p); reflexivity).
+      assert (Dr : dflt (p_region p) (o_region o) = nr) by reflexivity.
+      pose proof I2 as (K2 & _).
+      match goal with |- bind ?x _ <> None => destruct x as [w3|] eqn:E3 end; cbn [bind].
+      2:{ exfalso. revert E3. rewrite <- P1p, <- Cbp.
+          eapply (second_block_ok w2 f o1b o2 nr _ I2 T2 E2); [| | |exact U5|].
+          - rewrite U1, Cbl. exact Dl.
+          - exact U2.
+          - rewrite U3, Cbr, C1r. transitivity nr; [exact Dr|symmetry; exact Qr].
+          - rewrite Cbr, C1r. exact Qr. }
+      assert (F2 : frame w2 (set_obj w2 o2)).
+      { eapply (frame_set_obj w2 f o1b); [exact E2| |eauto]. unfold core. rewrite U1, U2, U3, Cbl, Cbr, C1r, Dl. fold nr. congruence. }
+      assert (K2' : keys_ok (set_obj w2 o2)) by (eapply frame_keys; eauto).
+      pose proof (second_same_frame _ _ _ _ _ _ K2' E3) as F3.
+      assert (Eo2 : get_obj (set_obj w2 o2) f = Some o2) by (rewrite get_obj_set_obj, U2, (K2 _ _ E2), N.eqb_refl; reflexivity).
+      destruct (frame_obj_rev _ _ _ _ F3 Eo2) as (o3 & Eo3 & _).
+      eapply hooks_ok; eauto.
+  - (* region changes *)
+    apply N.eqb_neq in Qr.
+    destruct (untrack_object w (o_region o) f) as [w1|] eqn:E; cbn [bind].
+    2:{ exfalso. eapply (untrack_object_ok w no_ovr (o_region o) f o); eauto. }
+    destruct (untrack_IdxX _ _ _ _ _ I Eo eq_refl E) as (IX1 & (o1 & Eo1 & C1) & FO1 & FR1).
+    rewrite Eo1. cbn [bind].
+    pose proof (core_inj _ _ C1) as (C1l & C1f & C1r).
+    destruct (untrack_object_TreeG _ _ _ _ _ I T Eo eq_refl E) as (TG1 & o1' & Eo1' & P1 & Hch1).
+    rewrite Eo1 in Eo1'. inversion Eo1'; subst o1'; clear Eo1'.
+    assert (P1p : o_parent o1 = o_parent o) by (unfold pcore in P1; congruence).
+    destruct (update_properties o1 p) as [o2 ch1] eqn:Eu.
+    pose proof (update_properties_tcore _ _ _ _ Eu) as C. apply tcore_inj' in C. cbn in C. destruct C as (U1 & U2 & U3 & U4 & U5).
+    assert (Qr2 : (nr =? o_region o) = false) by (apply N.eqb_neq; congruence).
+    rewrite Qr2. cbn [negb].
+    assert (UNI : forall r rs c, get_rs w1 r = Some rs -> aget c (r_local rs) <> Some f).
+    { intros r rs c E1' E2'. destruct IX1 as (_ & AX & _). destruct (AX _ _ _ _ E1' E2') as [Hne _]. congruence. }
+    assert (TG2 : TreeG (set_obj w1 o2) (oset no_ovr f None) None).
+    { eapply TreeG_set_detached; [eapply IdxX_Base; exact IX1|exact TG1| |exact UNI|eauto| |congruence].
+      - unfold oset. rewrite N.eqb_refl. reflexivity.
+      - congruence. }
+    assert (IX2 : IdxX (set_obj w1 o2) f).
+    { apply IdxX_set_obj; [exact IX1|]. congruence. }
+    assert (Eo2 : get_obj (set_obj w1 o2) f = Some o2).
+    { rewrite get_obj_set_obj. rewrite U2, C1f, Kf, N.eqb_refl. reflexivity. }
+    assert (Hr2 : o_region o2 = nr) by (rewrite U3, C1r; reflexivity).
+    assert (Hfree : exists rs, get_rs (set_obj w1 o2) nr = Some rs /\ r_tracked rs = true /\ aget (o_lid o2) (r_local rs) = None).
+    { rewrite get_rs_set_obj. specialize (FR1 nr). rewrite Ersn in FR1. cbn in FR1.
+      destruct (get_rs w1 nr) as [rs1|]; cbn in FR1; [|discriminate].
+      unfold ridx, ridx_del in FR1. rewrite Qr2 in FR1. inversion FR1 as [[Ft Fl]].
+      exists rs1. split; [reflexivity|]. split; [congruence|]. rewrite Fl, U1, C1l. fold nl.
+      destruct (aget nl (r_local rsn)) as [g|] eqn:Eg; [|reflexivity].
+      pose proof (Huniq _ _ Ersn Eg) as ->.
+      destruct (A _ _ _ _ Ersn Eg) as (og & Eog & _ & Hrg). rewrite Eo in Eog. inversion Eog; subst og. congruence. }
+    pose proof Hfree as (rsf & Ersf & _ & Hfr).
+    destruct (track_object (set_obj w1 o2) nr f) as [w3|] eqn:E0; cbn [bind].
+    2:{ exfalso. revert E0. eapply (track_object_ok _ nr f o2 rsf); [eapply IdxX_Base; exact IX2|exact TG2|exact Eo2|exact Hr2|exact Ersf|exact Hfr|].
+        rewrite U4, U1, P1p, C1l. apply Hself1. exact Qr. }
+    destruct (track_Idx _ _ _ _ _ IX2 Eo2 Hr2 Hfree E0) as [I3 FO3].
+    pose proof (FO3 f) as Cb. rewrite Eo2 in Cb. destruct (get_obj w3 f) as [o3|] eqn:Eo3; cbn in Cb; [|discriminate].
+    rewrite <- Eo3. eapply hooks_ok; eauto.
+Qed.
+
+(* ---------- every event kind ---------- *)
+(* the statement's input assumptions (input_tree_ok) + the message comes from / the call names a registered region *)
+Definition input_noerr_ok (w : world) (e : event) : Prop :=
+  input_tree_ok w e /\
+  match e with
+  | EKill r _ | EClear r | ETrack r | EReqObj r _ | EReqProps r _ | EReqMissing r => get_rs w r <> None
+  | _ => True
+  end.
+
+Lemma update_existing_same_ok : forall w f p k o, Idx w -> Tree w -> get_obj w f = Some o ->
+  dflt (p_region p) (o_region o) = o_region o -> dflt (p_lid p) (o_lid o) = o_lid o ->
+  update_existing w f p k <> None.
+Proof.
+  intros w f p k o I T Eo Hr Hl. pose proof I as (K & A & B). destruct (B _ _ Eo) as (rs & Ers & Ht & El).
+  apply (update_existing_ok w f p k o I T Eo).
+  - rewrite Hr. unfold region_state. rewrite Ers, Ht. discriminate.
+  - rewrite Hr, Hl. intros rs' g Ers' El'. congruence.
+  - intros Hd. congruence.
+  - intros _ Hd. congruence.
+Qed.
+
+Lemma step_ok : forall w e, Idx w -> Tree w -> acyclic w -> input_noerr_ok w e -> step w e <> None.
+Proof.
+  intros w e I T AC [Hok Hreg]. pose proof I as (K & A & B).
+  destruct e as [cmp r l f p av v|r l v|r l crc v|f v|r l|r|r|r l|r l|r]; cbn [step].
+  - destruct Hok as (Hrs & Hu & Hp). destruct (get_obj w f) as [o|] eqn:Eo.
+    + destruct Hp as [Hp1 Hp2]. eapply (update_existing_ok w f _ true o); eauto.
+    + destruct (region_state w r) eqn:Ers; [|discriminate].
+      eapply track_new_ok; eauto; cbn; congruence.
+  - destruct (region_state w r) as [rs|] eqn:Ers; [|discriminate].
+    destruct (lookup_local w r l) as [o|] eqn:El; [|discriminate].
+    destruct (lookup_local_some _ _ _ _ I El) as (Eo & Hl & Hr).
+    eapply (update_existing_same_ok w (o_full o) _ true o); eauto.
+  - destruct (region_state w r) as [rs|] eqn:Ers; [|discriminate].
+    destruct (lookup_local w r l) as [o|] eqn:El; [|discriminate].
+    destruct (o_crc o =? crc); [|discriminate].
+    destruct (lookup_local_some _ _ _ _ I El) as (Eo & Hl & Hr).
+    eapply (update_existing_same_ok w (o_full o) _ true o); eauto.
+  - destruct (get_obj w f) as [o|] eqn:Eo; [|discriminate].
+    eapply (update_existing_same_ok w f _ false o); eauto.
+  - apply step_kill_ok; auto.
+  - destruct (get_rs w r); [discriminate|congruence].
+  - destruct (get_rs w r); [discriminate|congruence].
+  - destruct (get_rs w r); [discriminate|congruence].
+  - destruct (get_rs w r); [discriminate|congruence].
+  - destruct (get_rs w r); [discriminate|congruence].
+Qed.
+
+Definition input_full_ok (w : world) (e : event) : Prop := input_noerr_ok w e /\ acyclic w.
+
+Lemma hist_ok_weaken : forall (P Q : world -> event -> Prop), (forall w e, P w e -> Q w e) ->
+  forall h w, hist_ok P w h -> hist_ok Q w h.
+Proof.
+  intros P Q H. induction h as [|e t IH]; intros w Hh; simpl in *; [exact Logic.I|].
+  destruct Hh as [H1 H2]. split; [auto|]. destruct (step w e); [auto|exact Logic.I].
+Qed.
+
+(* no handler raises along any history inside the assumptions, and the invariant holds at the end *)
+Lemma run_ok : forall h w, Inv w -> hist_ok input_full_ok w h -> exists w', run w h = Some w' /\ Inv w'.
+Proof.
+  induction h as [|e t IH]; intros w Iw Hh; simpl in *; [eauto|].
+  destruct Hh as [[Hn Hac] Hrest]. destruct Iw as [I T].
+  destruct (step w e) as [w1|] eqn:Es; [|exfalso; eapply step_ok; eauto].
+  apply IH; [|exact Hrest]. eapply step_Inv; [split; eassumption|apply Hn|exact Es].
+Qed.
+
+(* ---------- executable versions, for non-vacuity examples ---------- *)
+Definition Rkb (ht : N -> N -> nat) (w : world) : bool :=
+  forallb (fun kv => (o_parent (snd kv) =? 0) || Nat.ltb (ht (o_region (snd kv)) (o_lid (snd kv))) (ht (o_region (snd kv)) (o_parent (snd kv))))
+          (w_full w).
+
+Lemma Rkb_ok : forall ht w, Rkb ht w = true -> Rk ht w.
+Proof.
+  intros ht w H f o Eo Hp. unfold Rkb in H. rewrite forallb_forall in H. specialize (H (f, o) (aget_In _ _ _ _ Eo)).
+  cbn [snd] in H. apply orb_prop in H. destruct H as [H|H]; [apply N.eqb_eq in H; contradiction|]. apply Nat.ltb_lt. exact H.
+Qed.
+
+Definition input_full_okb (ht : N -> N -> nat) (w : world) (e : event) : bool :=
+  input_tree_okb w e && Rkb ht w &&
+  match e with
+  | EKill r _ | EClear r | ETrack r | EReqObj r _ | EReqProps r _ | EReqMissing r => is_some (get_rs w r)
+  | _ => true
+  end.
+
+Lemma input_full_okb_ok : forall ht w e, input_full_okb ht w e = true -> input_full_ok w e.
+Proof.
+  intros ht w e H. unfold input_full_okb in H. apply andb_prop in H. destruct H as [H H3]. apply andb_prop in H. destruct H as [H1 H2].
+  split; [split; [apply input_tree_okb_ok; exact H1|]|exists ht; apply Rkb_ok; exact H2].
+  destruct e; auto; destruct (get_rs w r); try discriminate; discriminate.
+Qed.
+
+Fixpoint hist_full_okb (ht : N -> N -> nat) (w : world) (h : list event) : bool :=
+  match h with
+  | [] => true
+  | e :: t => input_full_okb ht w e && match step w e with Some w1 => hist_full_okb ht w1 t | None => true end
+  end.
+
+Lemma hist_full_okb_ok : forall ht h w, hist_full_okb ht w h = true -> hist_ok input_full_ok w h.
+Proof.
+  intros ht. induction h as [|e t IH]; intros w H; simpl in *; [exact Logic.I|].
+  apply andb_prop in H. destruct H as [H1 H2]. split; [eapply input_full_okb_ok; exact H1|].
+  destruct (step w e); [apply IH; exact H2|exact Logic.I].
 Qed.
